@@ -67,10 +67,18 @@ def check_ledger(ctx: Ctx, m, env, led: Ledger, bar, case, what):
                 continue
             ctx.violate(f"accrual.entries:{side}", f"{what}: {side} entries {sorted(have)} but the ledger of accepted operations has {sorted(exp)}", case)
             continue
+        try:
+            listing = m.supplies if side == "sup" else m.borrows      # the view a strategy reads (and that fills the market's caches, as a strategy's read does)
+        except Exception:  # noqa: BLE001
+            listing = {}
         for t, base in exp.items():
             idx = F(env["status"][t][idxf])
             amount = F(getter(A.token(t)).amount)
             ctx.dev(amount, base * idx)
+            listed = listing.get(A.token(t))
+            if listed is not None and abs(F(listed.amount) - base * idx) > TOL * max(1, abs(base * idx) / 10 ** 12):
+                ctx.violate(f"accrual.amount-listed:{side}", f"{what}: market.{'supplies' if side == 'sup' else 'borrows'}[{t}].amount = {float(F(listed.amount)):.20g} but "
+                            f"Σ a_j·I_now/I_j = {float(base * idx):.20g} ({bar - led.opened.get((side, t), bar)} bars after opening)", case)
             if abs(amount - base * idx) > TOL * max(1, abs(base * idx) / 10 ** 12):
                 ctx.violate(f"accrual.amount:{side}", f"{what}: {side}[{t}].amount = {float(amount):.20g} but Σ a_j·I_now/I_j = {float(base * idx):.20g} "
                             f"({bar - led.opened.get((side, t), bar)} bars after opening)", case)
